@@ -83,4 +83,19 @@ CHECKS = {
         level_note="Trusts harness/ref6 + reflabel + ref4 (reference decoders), harness/proj (reflection projection) and the generator's record.",
         assumptions=["field domains as in the property quantifier (whole seconds < 2^32, elapsed time in 10 ms units, prefix lengths in range, valid names <= 255 octets, unique ORO codes, non-empty class lists, 16-byte addresses)"],
     ),
+    "C05": dict(
+        title="DHCPv6 decoding accepts exactly well-formed messages and reads the RFC values",
+        stages=[dict(name="diff", shards=S16, timeout={"quick": 900, "thorough": 3600})],
+        rule="differential executions: (a) EVERY byte string over the alphabet {00,01,02,03,04,08,0c,0e,ff} up to length 6 (quick) / 8 (thorough) behind a message header and up to length-2 behind a relay header "
+             "(all TLV framings of codes 1,2,3,4,8,12,14,0x0101.. with lengths 0..12, truncated headers included), (b) every truncation point and every length-field perturbation (-1,+1,-2,+2,0,0xFFFF) at every "
+             "option length field (offsets reported by the reference parser) of generated valid messages containing every typed option, (c) structure-aware mutants <= 4096 bytes, (d) ParseOption directly for every "
+             "typed code x every payload length 0..64 x {zeros, ones, counting, small values, random, valid payload cut/padded}. Shape = reject reason class, or the set of kind paths of the accepted tree; "
+             "non-trivial iff the tree holds a typed option or the reject is caused by an inner layout rule.",
+        technique="differential monitor: real dhcpv6.FromBytes/ParseOption vs an independent three-valued RFC 8415 reference decoder (accept/reject agreement + value-tree equality), exhaustive small scope + perturbation + mutation",
+        level_text="Accept/reject and every decoded field (neutral value tree) of the real decoder are compared with an independently written reference decoder; gray zones of the RFCs (reserved label types, "
+                   "forward pointers, compression inside DHCPv6 names, empty DNS list, vendor class without items, over-long DUIDs, partial names outside the FQDN option) answer Unspecified and are only counted.",
+        level_note="Trusts harness/ref6, reflabel, ref4 (reference decoders, Appendix A/C of DESIGN.md) and harness/proj (reflection projection).",
+        assumptions=["4RD map-rule layout taken from the library's documentation of RFC 7600 (reduced independence for code 98)"],
+        exhaustive_note="all byte strings over the 9-symbol alphabet up to the stated length behind both header kinds; all payload lengths 0..64 per typed code",
+    ),
 }
